@@ -37,9 +37,13 @@ def ncf2wind(ncffile, outpath, tflag='TFLAG'):
         d = np.array(d, ndmin=1).astype('>i')
         d = (d % (d // 100000 * 100000)).astype('>i')
         lstag = ncffile.LSTAGGER
-        buf = np.array([12], dtype='>i').tobytes()
-        outfile.write(buf + t.tobytes() + d.tobytes() +
-                      lstag.tobytes() + buf)
+        hdr = t.tobytes() + d.tobytes()
+        if lstag == lstag:
+            # the reader sets LSTAGGER to nan when the time header has no
+            # stagger flag (hour, idate only)
+            hdr += lstag.tobytes()
+        buf = np.array([len(hdr)], dtype='>i').tobytes()
+        outfile.write(buf + hdr + buf)
         for zi in range(nzcl):
             for varkey in varkeys:
                 vals = ncffile.variables[varkey][di, zi].astype('>f')
